@@ -16,7 +16,7 @@ suite=$(cd "$WT" && PYTHONPATH="$WT" /venv/bin/python -m pytest -ra -q -p no:cac
 d1=$(run_demo demo_patched.out)
 cd /verif
 cp "evidence/$P.json" "/tmp/evidence_$P.bak" 2>/dev/null
-PYODA_GEN_TIE=1 PYODA_REPO="$WT" ./check "$P" --no-proof "$@" >"$DST/check_patched.out" 2>&1; c1=$?
+PYODA_GEN_TIE=1 PYODA_REPO="$WT" timeout 2400 ./check "$P" --no-proof "$@" >"$DST/check_patched.out" 2>&1; c1=$?
 cp "evidence/$P.json" "$DST/evidence_patched.json" 2>/dev/null
 mv "/tmp/evidence_$P.bak" "evidence/$P.json" 2>/dev/null
 git -C "$WT" checkout -q -- .
